@@ -3,6 +3,7 @@ package main
 import (
 	"fmt"
 	"go/constant"
+	"go/token"
 	"go/types"
 	"sort"
 	"strconv"
@@ -427,6 +428,7 @@ func propC11(w *World, r *Report) {
 	if ci3 := analyseHandleConn(w); ci3.err == nil {
 		checkSingleBufferedReader(w, r, newTermEnv(w), "H1", "the camera description and every recorded frame are read through the same bufio.Reader", ci3.handlerFuncs(), ci3.hdrCall, []*ssa.Call{ci3.probe, ci3.rest}, ci3.inSetup)
 	}
+	checkRecorderWriteDelivers(w, r, T, "H1")
 	checkHeaderInfoGetters(w, r)
 	checkConfigMapping(w, r)
 	checkParserSelection(w, r, ci2)
@@ -598,6 +600,51 @@ func checkConfigMapping(w *World, r *Report) {
 	wantKey := map[string]string{"config.ThermalRecorder": "thermal-recorder", "config.Location": "location", "config.Windows": "windows", "config.Lepton": "lepton",
 		"config.Device": "device", "config.ThermalThrottler": "thermal-throttler", "config.ThermalMotion": "thermal-motion"}
 	n := 0
+	loaders := map[*ssa.Function]bool{}
+	defer func() {
+		// ... and a loader that calls another loader (or opens the configuration) returns that one's error as well
+		var ls []*ssa.Function
+		for _, fn := range w.RepoFuncs() {
+			nres := fn.Signature.Results().Len()
+			if fn.Pkg == nil || nres == 0 || fn.Signature.Results().At(nres-1).Type().String() != "error" {
+				continue
+			}
+			ls = append(ls, fn)
+		}
+		nSub := 0
+		for _, fn := range ls {
+			calls := false
+			for _, b := range fn.Blocks {
+				for _, in := range b.Instrs {
+					if c, ok := in.(*ssa.Call); ok && c.Call.StaticCallee() != nil && loaders[c.Call.StaticCallee()] {
+						calls = true
+					}
+				}
+			}
+			if !calls && !loaders[fn] || hasLoop(fn) {
+				continue // (a function that reloads in a loop - the change watcher - is not a loader)
+			}
+			for _, b := range fn.Blocks {
+				for _, in := range b.Instrs {
+					c, ok := in.(*ssa.Call)
+					if !ok || c.Call.StaticCallee() == nil {
+						continue
+					}
+					cl := c.Call.StaticCallee()
+					if loaders[cl] || cl.String() == "github.com/TheCacophonyProject/go-config.New" || cl.String() == "github.com/TheCacophonyProject/window.New" {
+						nSub++
+						r.Check(callErrorReturned(c), "H3", fn.Name()+": the error of "+cl.Name()+" ("+cl.Pkg.Pkg.Name()+") is returned", w.InstrPos(c), "")
+					}
+					// the configuration is opened in the directory the daemon was started with
+					if cl.String() == "github.com/TheCacophonyProject/go-config.New" && len(c.Call.Args) == 1 {
+						t := e.termOf(c.Call.Args[0]).String()
+						r.Check(t == "param:string" || strings.HasPrefix(t, "main.Config.ConfigDir@"), "H3", fn.Name()+": the configuration is read from the configured directory", w.InstrPos(c), t)
+					}
+				}
+			}
+		}
+		r.Check(nSub >= 4, "G4", "loader-in-loader calls found", "-", fmt.Sprint(nSub))
+	}()
 	for _, fn := range w.RepoFuncs() {
 		if fn.Pkg == nil {
 			continue
@@ -621,6 +668,10 @@ func checkConfigMapping(w *World, r *Report) {
 				target := unwrapIface(tgtV)
 				tn := typeShort(target.Type())
 				r.Check(wantKey[tn] == key && key != "", "H3", fn.Name()+": section \""+key+"\" is decoded into "+tn, w.InstrPos(c), "")
+				// a section that cannot be decoded aborts loading: the error is tested and, when not nil, returned (the
+				// reverse test, or a swallowed error, leaves the daemon running on defaults the file does not contain)
+				r.Check(callErrorReturned(c), "H3", fn.Name()+": a decoding error of section \""+key+"\" is returned", w.InstrPos(c), "")
+				loaders[fn] = true
 			}
 		}
 	}
@@ -823,4 +874,63 @@ func camCanon(w *World, setup *ssa.Function) func(string) string {
 		return func(t string) string { return t }
 	}
 	return func(t string) string { return strings.ReplaceAll(t, vals[0], "global:main.headerInfo") }
+}
+
+// checkRecorderWriteDelivers: every frame the file recorder is handed reaches the CPTV writer: on every path of
+// WriteFrame that does not fail beforehand the frame argument is passed to the file writer's WriteFrame exactly once,
+// and what that call returns is what WriteFrame returns (a swallowed frame or a swallowed error both leave a file that
+// does not hold what was recorded).
+func checkRecorderWriteDelivers(w *World, r *Report, T *types.Named, rule string) {
+	fn := findMethod(w.Prog, T, "WriteFrame")
+	if fn == nil || len(fn.Params) < 2 {
+		r.Unknown(rule, "CPTVFileRecorder.WriteFrame", "-", "method not found")
+		return
+	}
+	e := newTermEnv(w)
+	paths, complete := enumPathsInl(e, fn, 64, sameReceiverHelperOf(fn))
+	if !complete || len(paths) == 0 {
+		r.Unknown(rule, "CPTVFileRecorder.WriteFrame", w.Pos(fn.Pos()), "paths not enumerable")
+		return
+	}
+	for i, p := range paths {
+		var deliver []*ssa.Call
+		for _, in := range p.Instrs {
+			c, ok := in.(*ssa.Call)
+			if !ok {
+				continue
+			}
+			cl := c.Call.StaticCallee()
+			if cl != nil && cl.Name() == "WriteFrame" && cl.Signature.Recv() != nil && (typeIs(cl.Signature.Recv().Type(), "github.com/TheCacophonyProject/go-cptv", "FileWriter") || typeIs(cl.Signature.Recv().Type(), "github.com/TheCacophonyProject/go-cptv", "Writer")) {
+				if len(c.Call.Args) >= 2 && p.Origin(c.Call.Args[1]) == ssa.Value(fn.Params[1]) {
+					deliver = append(deliver, c)
+				}
+			}
+		}
+		rv := p.Origin(p.Ret.Results[0])
+		name := fmt.Sprintf("the recorder's WriteFrame path %d hands the frame to the CPTV writer once and returns that call's error", i+1)
+		switch {
+		case len(deliver) == 1 && (rv == ssa.Value(deliver[0]) || isNilConst(rv) && pathOnNilEdge(p, deliver[0])):
+			r.Pass(rule, name, w.InstrPos(p.Ret), "")
+		case len(deliver) == 0 && provablyNonNilError(e, p.Ret.Block(), p.Ret.Results[0]):
+			r.Pass(rule, name, w.InstrPos(p.Ret), "refused before writing, with an error")
+		default:
+			r.Fail(rule, name, w.InstrPos(p.Ret), fmt.Sprintf("%d delivering calls, returns %s", len(deliver), p.Term(e, p.Ret.Results[0]).String()), "")
+		}
+	}
+}
+
+// pathOnNilEdge: the path tested the error of call c against nil and went on where it IS nil.
+func pathOnNilEdge(p *Path, c *ssa.Call) bool {
+	for _, g := range p.Conds {
+		bo, ok := g.If.Cond.(*ssa.BinOp)
+		if !ok {
+			continue
+		}
+		if (isErrResultOf(bo.X, c) && isNilConst(bo.Y)) || (isErrResultOf(bo.Y, c) && isNilConst(bo.X)) {
+			if (bo.Op == token.EQL && g.Pos) || (bo.Op == token.NEQ && !g.Pos) {
+				return true
+			}
+		}
+	}
+	return false
 }
